@@ -49,7 +49,7 @@ def check(prog, res, tier):
 
         def chk(p, mode):
             if p.outcome != 'return':
-                return [definite(f'conversion raises {p.value!r}')]
+                return [definite(f'conversion raises {p.value!r}')] if p.outcome == 'raise' else []
             it = p.interp
             u = it.user
             r, w = ctor_of(it, 'IpmReader'), ctor_of(it, 'IpmWriter')
@@ -100,7 +100,7 @@ def check(prog, res, tier):
 
         def chk_m(p, mode):
             if p.outcome != 'return':
-                return [definite(f'convert raises {p.value!r}')]
+                return [definite(f'convert raises {p.value!r}')] if p.outcome == 'raise' else []
             it = p.interp
             u = it.user
             r, w = ctor_of(it, 'IpmReader'), ctor_of(it, 'IpmWriter')
@@ -169,7 +169,7 @@ def check(prog, res, tier):
 
         def chk_p(p, mode, style=style):
             if p.outcome != 'return':
-                return [definite(f'conversion raises {p.value!r}')]
+                return [definite(f'conversion raises {p.value!r}')] if p.outcome == 'raise' else []
             it = p.interp
             u = it.user
             r, w = ctor_of(it, 'VbsReader'), ctor_of(it, 'VbsWriter')
